@@ -7,7 +7,7 @@ from harness.common import Scratch, seed
 from harness.result import Outcome
 
 
-def run_issues(prop, kind, tier, budget, cfgs=('',), provenance=False, extra_every_cfg=()):
+def run_issues(prop, kind, tier, budget, cfgs=('',), provenance=False, extra_every_cfg=(), semctx=False):
     out = Outcome(prop, tier, 'model_checking')
     rng = random.Random(seed() * 13 + len(prop) + ord(prop[-1]))
     behs = _parserb.generate(out, tier, prop, envs=('broken', 'tokenv'), num=200 if tier == 'quick' else 1500)
@@ -19,6 +19,23 @@ def run_issues(prop, kind, tier, budget, cfgs=('',), provenance=False, extra_eve
             if b['text'] is not None:
                 n += 1
                 items.append([n, b['text'], b['version'], 'parserb:' + b['env']])
+        if semctx:
+            # SemCtx (context stack, statement) programs: the inputs the semantic rules were written for, in every
+            # context; with the provenance clause each is also reached through an incremental re-parse
+            from checks import _semctx
+            from harness.common import VERSIONS
+            pairs, r0 = _semctx.enumerate_programs(scratch.sub('sem'), 3 if tier == 'thorough' else 2)
+            out.add('states', r0.distinct)
+            out.add('transitions', r0.generated)
+            shallow = sorted({t for t in (_semctx.render(c, st) for c, st in pairs if len(c) <= 1) if t is not None})
+            sem = sorted({t for t in (_semctx.render(c, st) for c, st in pairs) if t is not None} - set(shallow))
+            if tier == 'quick' and len(sem) > 4000:
+                sem = rng.sample(sem, 4000)         # every (context, statement) pair of depth <= 1 is always kept
+            sem = shallow + sem
+            for j, t in enumerate(sem):
+                n += 1
+                items.append([n, t, VERSIONS[(j + seed()) % len(VERSIONS)], 'semctx'])
+            out.cov(semctx_programs=len(sem))
         tot = {'acc': 0, 'n': 0, 'nontriv': 0}
         for ci, cfg in enumerate(cfgs):
             its = items if len(cfgs) == 1 else [it for j, it in enumerate(items) if j % len(cfgs) == ci]
